@@ -98,13 +98,45 @@ func VerifWait(kv map[string]string) string {
 	to, _ := strconv.Atoi(kv["timeout"])
 	sc := &verifScript{polls: verifParseSched(kv["sched"])}
 	c := &verifyClient{client: &http.Client{Transport: sc}, timeout: time.Duration(to) * time.Millisecond}
-	err := c.WaitForCorrectVersion(verifLogger, exp)
+	err, hung := verifWatch(time.Duration(to)*time.Millisecond, func() error { return c.WaitForCorrectVersion(verifLogger, exp) })
 	res := "ok"
+	if hung {
+		// neither success nor failure long after the configured timeout (the wait goes on in its goroutine; the process is short-lived)
+		return fmt.Sprintf("hang polls=%d", sc.pollsSeen())
+	}
 	if err != nil {
 		res = "fail"
 	}
 	return fmt.Sprintf("%s polls=%d", res, sc.seen)
 }
+
+func (s *verifScript) pollsSeen() int {
+	s.mu.Lock()
+	defer s.mu.Unlock()
+	return s.seen
+}
+
+// verifWatch runs a wait that the configured timeout bounds. The real loop checks its deadline between polls and every poll is itself
+// bounded by the timeout, so it returns within about twice the timeout; "hung" = still running after eight times the timeout plus
+// three seconds (generous: the harness runs beside other work).
+func verifWatch(timeout time.Duration, f func() error) (error, bool) {
+	done := make(chan error, 1)
+	go func() { done <- f() }()
+	limit := 8*timeout + 3*time.Second
+	if verifHangs >= 3 {
+		// the wait has already been seen to hang three times in this process: the verdict is in, do not spend minutes on the rest
+		limit = 3*timeout + time.Second
+	}
+	select {
+	case err := <-done:
+		return err, false
+	case <-time.After(limit):
+		verifHangs++
+		return nil, true
+	}
+}
+
+var verifHangs int
 
 // VerifAtoi exposes what GetConfigVersion makes of one answer.
 // fields: ans=<poll>
@@ -189,8 +221,11 @@ func VerifMgr(kv map[string]string) string {
 			os.Setenv("VERIF_NGINX_RC", rc)
 			sc := &verifScript{polls: verifParseSched(f[2])}
 			lm.verifyClient = &verifyClient{client: &http.Client{Transport: sc}, timeout: time.Duration(to) * time.Millisecond}
-			err := lm.Reload(false)
+			err, hung := verifWatch(time.Duration(to)*time.Millisecond, func() error { return lm.Reload(false) })
 			res := "ok"
+			if hung {
+				return strings.Join(append(out, "r:hang"), ";")
+			}
 			if err != nil {
 				res = "fail"
 			}
